@@ -4,7 +4,7 @@
 tier=${1:-quick}; shift
 cd /verif
 seeds=${@:-$(ls seeded | grep -v RESULTS)}
-extra() { case $1 in C10-3) echo C12;; C01-2) echo C13;; *) echo "";; esac; }
+extra() { case $1 in C10-3) echo C12;; C01-2) echo C13;; C17-3) echo C14;; *) echo "";; esac; }
 out=seeded/RESULTS.md
 [ -f $out ] || echo "| seed | property | check | result | first violation reported |" > $out
 for s in $seeds; do
